@@ -5,4 +5,7 @@ CONSTANTS
   MaxFiles = 1
   Rich = FALSE
   WithBad = FALSE
+  Routes = {"inst"}
+  Layouts = {"flat"}
+  Slim = FALSE
 CHECK_DEADLOCK FALSE
